@@ -3,16 +3,20 @@
 // Golib.Ext.UdpClient (driver drv_x03) and against the laws evaluated directly.
 //
 // The real client runs in-process and talks to a receiver socket on 127.0.0.1 (free port).
-//   live histories     process() runs (the goroutine GetUdpClient starts); after every operation the
-//                      harness waits – logically, on the client's own counters – until everything
-//                      handed to the channel was written and received (so never more than one burst is
-//                      in flight and the kernel's receive buffer cannot overflow under load)
-//   manual histories   no process() goroutine: the channel fills, Shutdown drains it itself, the
-//                      buffer's remainder stays behind; then more sends, ApplyConfig (re-open), …
+//
+//	live histories     process() runs (the goroutine GetUdpClient starts); after every operation the
+//	                   harness waits – logically, on the client's own counters – until everything
+//	                   handed to the channel was written and received (so never more than one burst is
+//	                   in flight and the kernel's receive buffer cannot overflow under load)
+//	manual histories   no process() goroutine: the channel fills, Shutdown drains it itself, the
+//	                   buffer's remainder stays behind; then more sends, ApplyConfig (re-open), …
+//
 // Laws evaluated on what the receiver got, without the model (kind "property"):
-//   every datagram parses into whole frames; the frames, in order, are the accepted packs minus those
-//   whose frame exceeds the UDP maximum, minus the tail still in the buffer; no datagram exceeds the
-//   limit unless it is a single frame.
+//
+//	every datagram parses into whole frames; the frames, in order, are the accepted packs minus those
+//	whose frame exceeds the UDP maximum, minus the tail still in the buffer; no datagram exceeds the
+//	limit unless it is a single frame.
+//
 // Then the same history is answered by the model (kind "correspondence" when only that differs).
 //
 // Needs the hooks of proposed/X03/hooks.diff (net/udp/export_verif.go, net/export_udp_verif.go).
@@ -186,10 +190,10 @@ func newClient(kind string, port int) client {
 // a minimal config.Config
 type fakeConf struct{ m map[string]string }
 
-func (f *fakeConf) ApplyDefault()        {}
-func (f *fakeConf) GetConfFile() string  { return "" }
-func (f *fakeConf) Destroy()             {}
-func (f *fakeConf) GetKeys() []string    { return nil }
+func (f *fakeConf) ApplyDefault()            {}
+func (f *fakeConf) GetConfFile() string      { return "" }
+func (f *fakeConf) Destroy()                 {}
+func (f *fakeConf) GetKeys() []string        { return nil }
 func (f *fakeConf) GetValue(k string) string { return f.m[k] }
 func (f *fakeConf) GetValueDef(k, d string) string {
 	if v, ok := f.m[k]; ok {
@@ -197,17 +201,17 @@ func (f *fakeConf) GetValueDef(k, d string) string {
 	}
 	return d
 }
-func (f *fakeConf) GetBoolean(k string, d bool) bool                 { return d }
-func (f *fakeConf) GetInt(k string, d int) int32                     { return int32(d) }
-func (f *fakeConf) GetIntSet(k, d, deli string) []int32              { return nil }
-func (f *fakeConf) GetLong(k string, d int64) int64                  { return d }
+func (f *fakeConf) GetBoolean(k string, d bool) bool                     { return d }
+func (f *fakeConf) GetInt(k string, d int) int32                         { return int32(d) }
+func (f *fakeConf) GetIntSet(k, d, deli string) []int32                  { return nil }
+func (f *fakeConf) GetLong(k string, d int64) int64                      { return d }
 func (f *fakeConf) GetStringArray(k string, d string, s string) []string { return nil }
-func (f *fakeConf) GetStringHashSet(k, d, deli string) []int32       { return nil }
-func (f *fakeConf) GetStringHashCodeSet(k, d, deli string) []int32   { return nil }
-func (f *fakeConf) GetFloat(k string, d float32) float32             { return d }
-func (f *fakeConf) SetValues(v *map[string]string)                   {}
-func (f *fakeConf) ToString() string                                 { return "" }
-func (f *fakeConf) String() string                                   { return "" }
+func (f *fakeConf) GetStringHashSet(k, d, deli string) []int32           { return nil }
+func (f *fakeConf) GetStringHashCodeSet(k, d, deli string) []int32       { return nil }
+func (f *fakeConf) GetFloat(k string, d float32) float32                 { return d }
+func (f *fakeConf) SetValues(v *map[string]string)                       {}
+func (f *fakeConf) ToString() string                                     { return "" }
+func (f *fakeConf) String() string                                       { return "" }
 
 // a pack whose body is given bytes; its type is outside the pooled types of udp.ClosePack
 type rawPack struct {
@@ -217,15 +221,15 @@ type rawPack struct {
 	body  []byte
 }
 
-func (p *rawPack) GetPackType() uint8         { return p.typ }
-func (p *rawPack) Write(o *wio.DataOutputX)   { o.WriteBytes(p.body) }
-func (p *rawPack) Read(in *wio.DataInputX)    {}
-func (p *rawPack) SetVersion(v int32)         { p.ver = v }
-func (p *rawPack) GetVersion() int32          { return p.ver }
-func (p *rawPack) SetFlush(f bool)            { p.flush = f }
-func (p *rawPack) IsFlush() bool              { return p.flush }
-func (p *rawPack) Process()                   {}
-func (p *rawPack) Clear()                     { p.body = nil }
+func (p *rawPack) GetPackType() uint8       { return p.typ }
+func (p *rawPack) Write(o *wio.DataOutputX) { o.WriteBytes(p.body) }
+func (p *rawPack) Read(in *wio.DataInputX)  {}
+func (p *rawPack) SetVersion(v int32)       { p.ver = v }
+func (p *rawPack) GetVersion() int32        { return p.ver }
+func (p *rawPack) SetFlush(f bool)          { p.flush = f }
+func (p *rawPack) IsFlush() bool            { return p.flush }
+func (p *rawPack) Process()                 {}
+func (p *rawPack) Clear()                   { p.body = nil }
 
 // ---------------------------------------------------------------- operations
 
@@ -350,10 +354,10 @@ func genSend(rng *vh.Rng, limit, bufLen int, allowHuge bool) *op {
 // ---------------------------------------------------------------- histories
 
 type history struct {
-	ID    int    `json:"id"`
-	Kind  string `json:"kind"` // ucp | old
-	Mode  string `json:"mode"` // live | manual
-	Ops   []*op  `json:"ops"`
+	ID    int      `json:"id"`
+	Kind  string   `json:"kind"` // ucp | old
+	Mode  string   `json:"mode"` // live | manual
+	Ops   []*op    `json:"ops"`
 	impl  []string // observable summary after each op (same fields as the model's summary)
 	lines []string // driver lines; lineOf[i] = index of the line answering op i
 	at    []int
@@ -396,6 +400,7 @@ func modelSummary(s string) string {
 // live: one client per worker and kind, process() running; reused across histories after a
 // timer flush and AddCount(reset) – which is the fresh state again.
 type liveEnv struct {
+	dead bool
 	c    client
 	r    *receiver
 	kind string
@@ -405,7 +410,7 @@ func newLive(kind string) *liveEnv {
 	r := newReceiver()
 	c := newClient(kind, r.port)
 	c.StartProcess()
-	return &liveEnv{c, r, kind}
+	return &liveEnv{c: c, r: r, kind: kind}
 }
 
 func (e *liveEnv) quiesce() bool {
@@ -457,7 +462,10 @@ func runLive(e *liveEnv, h *history, rng *vh.Rng, n int) {
 	h.lines = append(h.lines, "W")
 	// back to the fresh state for the next history
 	vh.GuardTimeout(hang, e.c.Flush)
-	e.quiesce()
+	if h.bad != "" || !e.quiesce() {
+		e.dead = true // out of step with its receiver: the worker takes a new client
+		return
+	}
 	e.r.take()
 	e.c.Reset()
 }
@@ -670,7 +678,7 @@ func main() {
 					continue
 				}
 				if h.Mode == "live" {
-					if live[h.Kind] == nil {
+					if live[h.Kind] == nil || live[h.Kind].dead {
 						live[h.Kind] = newLive(h.Kind)
 					}
 					runLive(live[h.Kind], h, forks[h.ID], opsPer/3+forks[h.ID].Intn(opsPer))
